@@ -135,6 +135,12 @@ def check_case(case):
     S.PROBE_LOG.clear()
     res = alpha.call(S.run_frontend, fe, tab, cfgd)
     probes = list(S.PROBE_LOG)
+    if case.get("collect_first") and not isinstance(res, alpha.Raised):
+        # the caller keeps the yielded results, collects them (both forms) and only then reads the per-context flags
+        from ioos_qc.results import collect_results
+
+        alpha.call(collect_results, list(res), how="dict")
+        alpha.call(collect_results, list(res), how="list")
     if isinstance(res, alpha.Raised):
         return [V(f"{PROP}|{layout}|window={wk}|symptom=raises:{res.name}", f"{fe} raised {res.name}: {res.msg}", None, repr(res))], nt, ("exc", res.name), 0
     # flatten yields -> (stream, test) -> list of (mask, flags)
@@ -304,6 +310,18 @@ def axis_stream_programs(n):
         yield "axis", dict(z=True, ll=False), [dict(start=s, end=e, streams={"v": mv, "z": mz})], "str"
 
 
+def subsec_programs(n):
+    """window bounds that are not whole seconds, on a table sampled at whole seconds (1 s steps would need another table:
+    here rows sit on whole days, the bounds half a second before / after a row time)"""
+    mods, need = TESTSETS["probe"]
+    m2 = dict(qartod=dict(spike_test=dict(suspect_threshold=1, fail_threshold=5)))
+    ts = [S.T0 + i * S.DAY for i in range(n)]
+    grid = [None] + [t + d for t in ts for d in (-0.5, 0.5, 0.999)]
+    for s_ in grid:
+        for e_ in grid:
+            yield "probe", need, [dict(start=s_, end=e_, streams={"v": mods, "w": m2})], "str"
+
+
 def big_programs(n):
     """a few programs on a table of n rows (size-dependent code paths)"""
     t = lambda i: S.T0 + i * S.DAY
@@ -322,6 +340,9 @@ def tasks(tier):
         ts.append(("big", 1500 if tier == "quick" else 2600, fe))
     for fe in ("pandas:names", "xarray:names", "netcdf:names", "xarray:axcoords", "numpy:ma", "qcconfig:ma"):
         ts.append(("one", 4, fe))
+    for fe in ("pandas:secunit", "pandas:range", "numpy:dict", "xarray:coord", "netcdf"):
+        ts.append(("subsec", 3, fe))
+    ts.append(("one", 4, "pandas:secunit"))
     for fe in ("xarray:axcoords", "numpy:ma"):
         ts.append(("two", 4, fe))
         ts.append(("big", 40, fe))
@@ -420,7 +441,7 @@ def run_task(task, acc):
 
     def gen():
         progs = {"one": one_context_programs, "two": two_context_programs, "three": three_context_programs, "axis": axis_stream_programs,
-                 "big": big_programs}[kind](n)
+                 "big": big_programs, "subsec": subsec_programs}[kind](n)
         for ts_name, need, ctxs, style in progs:
             if not usable(ctxs):
                 continue
@@ -430,6 +451,8 @@ def run_task(task, acc):
                 if len(ctxs) > 1:
                     continue
             yield dict(n=n, z=need["z"], ll=need["ll"], fe=fe, contexts=ctxs, style=style, testset=ts_name)
+            if kind in ("two", "three") and n == 4 and not fe.startswith("qcconfig"):
+                yield dict(n=n, z=need["z"], ll=need["ll"], fe=fe, contexts=ctxs, style=style, testset=ts_name, collect_first=True)
             if kind == "big":
                 yield dict(n=n, z=need["z"], ll=need["ll"], fe=fe, contexts=ctxs, style=style, testset=ts_name, shuffled=True)
                 if not fe.startswith("qcconfig"):
